@@ -13,8 +13,31 @@ import (
 
 type Value interface{}
 
-// FloatV is a concrete float (symbolic floats are unsupported).
-type FloatV struct{ F float64 }
+// FloatV is a concrete float, or (C != nil) a choice between two float values: floats are supported only as
+// finite trees of concrete values selected by boolean terms (no float arithmetic reaches the solver).
+type FloatV struct {
+	F    float64
+	C    *Term
+	A, B *FloatV
+}
+
+// fmap2 applies op to every pair of leaves.
+func fmap2(x, y *FloatV, op func(a, b float64) Value) Value {
+	if x.C != nil {
+		return mergeValue(x.C, fmap2(x.A, y, op), fmap2(x.B, y, op))
+	}
+	if y.C != nil {
+		return mergeValue(y.C, fmap2(x, y.A, op), fmap2(x, y.B, op))
+	}
+	return op(x.F, y.F)
+}
+
+func fmap1(x *FloatV, op func(a float64) Value) Value {
+	if x.C != nil {
+		return mergeValue(x.C, fmap1(x.A, op), fmap1(x.B, op))
+	}
+	return op(x.F)
+}
 
 // Agg is an immutable aggregate: struct, array or tuple.
 type Agg struct{ E []Value }
@@ -163,7 +186,7 @@ func zeroValue0(t types.Type) Value {
 		case u.Info()&types.IsString != 0:
 			return &SliceV{Base: nilPtr, Off: i64(0), Len: i64(0), Cap: i64(0)}
 		case u.Info()&types.IsFloat != 0:
-			return &FloatV{0}
+			return &FloatV{F: 0}
 		case u.Kind() == types.UnsafePointer:
 			return nilPtr
 		case u.Kind() == types.UntypedNil:
@@ -366,10 +389,10 @@ func mergeValue(c *Term, a, b Value) Value {
 		return Ite(c, x, y)
 	case *FloatV:
 		y := b.(*FloatV)
-		if x.F == y.F || (math.IsNaN(x.F) && math.IsNaN(y.F)) {
+		if x.C == nil && y.C == nil && (x.F == y.F || (math.IsNaN(x.F) && math.IsNaN(y.F))) {
 			return x
 		}
-		panic(unsupported("symbolic float (merge of different concrete floats)"))
+		return &FloatV{C: c, A: x, B: y}
 	case *Agg:
 		y := b.(*Agg)
 		if len(x.E) != len(y.E) {
